@@ -1204,6 +1204,7 @@ fn op_csr(w: &World, toks: &[&str]) -> R<String> {
     let built = match built { Err(p) => return Ok(p), Ok(Err(_)) => return Err(Refused), Ok(Ok(c)) => c };
     let mk = Masker::new(w);
     let der_bytes = built.into_bytes();
+    stash(&der_bytes);
     let dec = match stage("decode", || RpkiCaCsr::decode(der_bytes.clone())) {
         Err(p) => return Ok(p), Ok(Err(_)) => return Ok("decode-err".into()), Ok(Ok(c)) => c };
     let mut dd = D::new();
@@ -1924,7 +1925,7 @@ fn emit(ctx: &mut Ctx, op: &str) {
     // times with a sub-second part (and the default signing time, which is the wall clock) lose it in the encoding
     let subsec = op.contains('.') || op.contains(" st=N");
     ctx.case(&format!("{}{} vexp={} conf={}", op, if subsec { " subsec=1" } else { "" }, vexp, if conf { 1 } else { 0 }));
-    if matches!(op.split(' ').next(), Some("cert" | "crl" | "so" | "mft" | "roa" | "aspa" | "idcert" | "sigmsg")) {
+    if matches!(op.split(' ').next(), Some("cert" | "crl" | "so" | "mft" | "roa" | "aspa" | "idcert" | "sigmsg" | "csr")) {
         ctx.case(&format!("bytes {}", op));
     }
 }
@@ -2210,6 +2211,7 @@ fn exec_op(toks: &[&str]) -> String {
             "so" | "mft" | "roa" | "aspa" => crate::certd::exec_cms(&["cmsd", toks[1], &h]),
             "idcert" => crate::certd::exec_idc(&["idcd", &h]),
             "sigmsg" => crate::certd::exec_smsg(&["smsgd", &h]),
+            "csr" => crate::csrd::exec_csr(&["csrd", "csr", &h]),
             _ => return "bad-op".into(),
         };
         return format!("{} | {}", h, line);
